@@ -316,7 +316,7 @@ def mw5_hooks_on_every_action(ctx, rep):
             neg = True
         if raw[0] != "call" or raw[2] != "std::vec::Vec::is_empty" or raw[1][0] != n.body.path:
             continue
-        at = strip_wrap(bp.arg_term(raw[1][1], 0))
+        at = ctx.base_term(bp.arg_term(raw[1][1], 0))
         if not (at[0] == "field" and at[2] == A.f_middlewares):
             continue
         zero = [bb for v, bb in t["targets"] if str(v) == "0"]
